@@ -12,7 +12,14 @@
          I = start=sid/end:type:cred:corr,..|sid/..;start=..          ('-' when empty)
      T <inputhex> <oracle>                         table case
          oracle = '-' | texthex:code:endpos,...    (the components of the sentence the implementation produced)
-   stdout: one line per S/T line:  asked=<0|1> orc=<0|1|-> path=<0|1|-> | type start end texthex code;...   *)
+     P <penhex> <epshex>                           the per-word constant (kPenalty - kS) and the margin, scaled integers
+     G <w|l> <0|1> <total> <precedinghex> <graph> <epshex> <oracle>     a word graph handed to the modelled Poet directly
+         graph = '-' | start=end/texthex:id:whex,..|end/-;start=..      (whex = weight * 2^96)
+   stdout: one line per S/T line:
+     asked=<0|1> orc=<0|1|-> path=<0|1|-> rob=<0|1|-> mw=<hex|-> iw=<hex|-> | CANDS(modelled Poet) || CANDS(observed sentence fed back)
+       CANDS = type start end texthex code;...     rob: every decision of the modelled Poet has a margin (Poet.v, [robust]);
+       mw / iw: exact weight of the model's / the implementation's sentence in the model's word graph
+   one line per G line:  none | sent texthex:id:end,..   followed by  rob=<0|1> mw=<hex|-> iw=<hex|->   *)
 
 let nat = nat_of_int
 let ios = int_of_string
@@ -34,6 +41,18 @@ let z_of_hex (s : Stdlib.String.t) : z =
   match build !bits with
   | None -> Z0
   | Some p -> if neg then Zneg p else Zpos p
+
+let hex_of_z (x : z) : Stdlib.String.t =
+  let rec bits (p : positive) : bool list = match p with XH -> [true] | XO q -> false :: bits q | XI q -> true :: bits q in
+  let to_hex (p : positive) =
+    let b = Array.of_list (bits p) in           (* least significant first *)
+    let n = Array.length b in
+    let nd = (n + 3) / 4 in
+    String.init nd (fun i -> let j = nd - 1 - i in
+      let v = ref 0 in
+      for k = 3 downto 0 do v := 2 * !v + (if 4*j+k < n && b.(4*j+k) then 1 else 0) done;
+      "0123456789abcdef".[!v]) in
+  match x with Z0 -> "0" | Zpos p -> to_hex p | Zneg p -> "-" ^ to_hex p
 
 let text_of_hex (h : Stdlib.String.t) : n list =
   if h = "-" then [] else
@@ -58,6 +77,8 @@ let completion = ref false
 let sentence_on = ref false
 let delims : n list ref = ref []
 let mhg = ref 1
+let pen : z ref = ref Z0
+let eps : z ref = ref Z0
 
 let final_table () : node list =
   List.map (fun nd -> match List.assoc_opt nd.n_code !tails with
@@ -92,10 +113,34 @@ let parse_indices (s : Stdlib.String.t) =
 
 let type_str = function TPhrase -> "phrase" | TCompletion -> "completion" | TSentence -> "sentence" | TTable -> "table"
 
-let print_result asked orc path (cands : cand list) =
-  let cs = List.map (fun c -> Printf.sprintf "%s %d %d %s %s" (type_str c.k_type) (int_of_nat c.k_start) (int_of_nat c.k_end)
-                                (hex_of_text c.k_text) (str_of_code c.k_code)) cands in
-  Printf.printf "asked=%d orc=%s path=%s | %s\n" (if asked then 1 else 0) orc path (String.concat ";" cs)
+let cands_str (cands : cand list) =
+  String.concat ";" (List.map (fun c -> Printf.sprintf "%s %d %d %s %s" (type_str c.k_type) (int_of_nat c.k_start) (int_of_nat c.k_end)
+                                (hex_of_text c.k_text) (str_of_code c.k_code)) cands)
+
+let optz = function None -> "-" | Some w -> hex_of_z w
+
+let print_result asked orc path rob mw iw (cm : cand list) (co : cand list) =
+  Printf.printf "asked=%d orc=%s path=%s rob=%s mw=%s iw=%s | %s || %s\n" (if asked then 1 else 0) orc path rob mw iw
+    (cands_str cm) (cands_str co)
+
+(* the grammar of the direct stream: a pure function with values k/4 (harness/c07/poet.cc has the same) *)
+let test_grammar (context : n list) (word : n list) (is_rear : bool) : z =
+  let h = List.fold_left (fun a x -> a + 3 * int_of_n x) 0 context + List.fold_left (fun a x -> a + 5 * int_of_n x) 0 word
+          + (if is_rear then 7 else 0) in
+  (* -1 - (h mod 32)/4, scaled by 2^96 = -(4 + h mod 32) * 2^94 *)
+  let k = 4 + (h mod 32) in
+  let rec shift (p : positive) (n : int) = if n = 0 then p else shift (XO p) (n - 1) in
+  Zneg (shift (pos_of_int k) 94)
+
+let parse_wgraph (s : Stdlib.String.t) =
+  List.map (fun st -> match String.split_on_char '=' st with
+    | [start; ends] ->
+      (nat (ios start), List.map (fun e -> match String.split_on_char '/' e with
+        | [endp; ents] -> (nat (ios endp), List.map (fun it -> match String.split_on_char ':' it with
+            | [tx; id; w] -> { d_text = text_of_hex tx; d_code = [nat (ios id)]; d_w = z_of_hex w; d_remlen = O; d_match = O }
+            | _ -> failwith "bad entry") (items ents ','))
+        | _ -> failwith "bad end") (items ends '|'))
+    | _ -> failwith "bad start") (items s ';')
 
 let () =
   try
@@ -121,29 +166,62 @@ let () =
       | ["Y"; id; h] -> syls := !syls @ [(nat (ios id), text_of_hex h)]
       | ["O"; "script"; wc; m] -> kind := "script"; wordcompl := wc = "1"; mh := ios m
       | ["O"; "table"; c; s; d; m] -> kind := "table"; completion := c = "1"; sentence_on := s = "1"; delims := text_of_hex d; mhg := ios m
+      | ["P"; p; e] -> pen := z_of_hex p; eps := z_of_hex e
       | ["S"; n; il; e; i; orc] ->
         let g = { g_input_len = nat (ios n); g_ilen = nat (ios il); g_edges = parse_edges e; g_indices = parse_indices i } in
         let t = final_table () in
         let sent = parse_sentence orc in
         let asked = ref false in
-        let poet _ _ = asked := true; sent in
-        let cands = script_query poet !wordcompl (nat !mh) g t in
+        let poet_o _ _ = asked := true; sent in
+        let poet_m wg tot = poet_script !pen wg tot in
+        let cm = script_query poet_m !wordcompl (nat !mh) g t in
+        let co = script_query poet_o !wordcompl (nat !mh) g t in
         let wg = script_wgraph g t (nat !mh) in
         let o = match sent with None -> "-" | Some s -> if wg_path_ok wg O g.g_ilen s then "1" else "0" in
         let p = if !asked then (if wg_has_path wg g.g_ilen then "1" else "0") else "-" in
-        print_result !asked o p cands
+        let rob = if !asked then (if robust None !pen compare_weight [] !eps false wg g.g_ilen then "1" else "0") else "-" in
+        let mw = if !asked then (match poet_m wg g.g_ilen with None -> "-" | Some s -> optz (chain_weight !pen wg O s)) else "-" in
+        let iw = if !asked then (match sent with None -> "-" | Some s -> optz (chain_weight !pen wg O s)) else "-" in
+        print_result !asked o p rob mw iw cm co
       | ["T"; inp; orc] ->
         let t = final_table () in
         let input = text_of_hex inp in
         let sent = parse_sentence orc in
         let asked = ref false in
-        let poet _ _ = asked := true; sent in
-        let cands = table_query poet !completion !sentence_on (nat !mhg) !prism_ !syls t !delims input in
+        let poet_o _ _ = asked := true; sent in
+        let poet_m wg tot = poet_table !pen wg tot in
+        let cm = table_query poet_m !completion !sentence_on (nat !mhg) !prism_ !syls t !delims input in
+        let co = table_query poet_o !completion !sentence_on (nat !mhg) !prism_ !syls t !delims input in
         let total = nat (List.length input) in
         let wg = if !asked then table_wgraph (nat !mhg) !prism_ !syls t !delims input else [] in
         let o = match sent with None -> "-" | Some s -> if !asked && wg_path_ok wg O total s then "1" else "0" in
         let p = if !asked then (if wg_has_path wg total then "1" else "0") else "-" in
-        print_result !asked o p cands
+        let rob = if !asked then (if robust None !pen left_associate_compare [] !eps false wg total then "1" else "0") else "-" in
+        let mw = if !asked then (match poet_m wg total with None -> "-" | Some s -> optz (chain_weight !pen wg O s)) else "-" in
+        let iw = if !asked then (match sent with None -> "-" | Some s -> optz (chain_weight !pen wg O s)) else "-" in
+        print_result !asked o p rob mw iw cm co
+      | ["G"; c; gram; tot; prec; gs; e; orc] ->
+        let wg = parse_wgraph gs in
+        let total = nat (ios tot) in
+        let cmp = if c = "l" then left_associate_compare else compare_weight in
+        let gr = if gram = "1" then Some test_grammar else None in
+        let preceding = text_of_hex prec in
+        let ez = z_of_hex e in
+        let ms = make_sentence gr !pen cmp preceding wg total in
+        let rob = robust gr !pen cmp preceding ez (gram = "1") wg total in
+        (* exact weight of a chain from whichever position it starts at (a line of the dynamic programme may start at
+           the end of an edge without entries); only meaningful without a grammar *)
+        let weight_any s = List.fold_left (fun acc o -> match acc with Some _ -> acc | None -> chain_weight !pen wg (nat o) s)
+                             None (List.init (ios tot + 1) (fun i -> i)) in
+        let sent = parse_sentence orc in
+        let mw = match ms with None -> "-" | Some s -> optz (weight_any s) in
+        let iw = match sent with None -> "-" | Some s -> optz (weight_any s) in
+        let body = match ms with
+          | None -> "none"
+          | Some [] -> "sent -"
+          | Some s -> "sent " ^ String.concat "," (List.map (fun (d, ep) ->
+              Printf.sprintf "%s:%s:%d" (hex_of_text d.d_text) (str_of_code d.d_code) (int_of_nat ep)) s) in
+        Printf.printf "%s rob=%d mw=%s iw=%s\n" body (if rob then 1 else 0) mw iw
       | [] -> ()
       | _ -> print_endline "BADLINE"
     done
